@@ -96,6 +96,12 @@ def build_inputs(tier):
             for body in ["", "a", "a b", "\\n", "\\\\", "it" + ("\\'" if q[0] == "'" else '\\"') + "s", "é" if "b" not in p.lower() else "e", "#x", "{}"]:
                 cases.append(("string", f"x = {p}{q}{body}{q}\n"))
         cases.append(("string", f"x = {p}'''a\nb'''\n"))
+        # one or two quote characters of the delimiter's kind INSIDE a triple-quoted body, the closing triple on the same line or a later one
+        for q in ["'''", '"""']:
+            c = q[0]
+            for body in [f"a{c}b", f"a{c}{c}b", f"an empty {c}{c} string", f"{c}a", f"{c}{c}a", f"a{c}{c}b\nc", f"a\n{c}{c}b", f"a{c} {c}{c} {c}b", f"\\{c}{c}{c}x"]:
+                cases.append(("string", f"x = {p}{q}{body}{q}\n"))
+                cases.append(("string", f"f({p}{q}{body}{q}, {p}{q}z{q})\n"))
     opchars = ["+", "-", "*", "/", "%", "@", "&", "|", "^", "~", "<", ">", "=", "!=", ":", ".", ",", ";", "(", ")", "[", "]", "{", "}"]
     runs = list(itertools.product(opchars, repeat=2))
     if tier != "quick":
